@@ -56,6 +56,7 @@ class Rec:
         self.generation = 0                           # incremented by every effective start()
         self.unspecified = False                      # a cancellation was converted into an Exception
         self.stop_requested_gen = -1                  # generation for which the controller asked for stop/cancel
+        self.stops_in_flight = 0                      # stop()/__aexit__ calls of the controller that have not returned yet
         self.judging = True                           # False once the scenario is over (teardown cancels everything)
         self.seen: dict[int, Any] = {}                # tasks of the current start ever seen in the service's task set
         self.collected: set[int] = set()              # ... whose outcome a returned stop()/wait()/run() has collected
@@ -126,7 +127,8 @@ def make_probe_class() -> Any:
                 inv["how"] = how
                 sim.ev("exit", rec.name, k, how)
                 sim.model_states.add((how, k > 0))
-                if how in ("cancelled", "converted") and rec.judging and rec.stop_requested_gen != inv["gen"]:
+                if how in ("cancelled", "converted") and rec.judging and rec.stop_requested_gen != inv["gen"] \
+                        and not rec.stops_in_flight:
                     # nobody called stop()/cancel()/left the async-with block for this start of the actor: something
                     # else (e.g. a caller that gave up waiting) took the run logic down
                     sim.soft_violation("restart_after_failure", {"what": "run logic cancelled although nobody stopped or cancelled the actor"},
@@ -233,6 +235,7 @@ def scenario(sim: Sim) -> None:
             ctl_interference[rec.name] = sim.evno
             if kind in ("stop", "aexit", "aexit_exc"):
                 rec.stop_requested_gen = rec.generation
+                rec.stops_in_flight += 1        # (a stop in progress may also take down a run started meanwhile)
             raised: BaseException | None = None
             try:
                 if kind == "stop":
@@ -251,6 +254,9 @@ def scenario(sim: Sim) -> None:
                 raise
             except BaseException as e:  # pylint: disable=broad-except
                 raised = e
+            finally:
+                if kind in ("stop", "aexit", "aexit_exc"):
+                    rec.stops_in_flight -= 1
             op["done"] = True
             op["t_ret"] = sim.now_us
             # (whatever it was called for, a call that returns has drained the service's task set: every task of the
